@@ -5,7 +5,7 @@ from ..common import Check, hx, RUNDIR, build_worker, build_model, Proc
 from .. import storecheck
 from ..storecheck import HistGen, Runner, strip_now
 from ..absstore import Abs
-from ..gen import ev_tok, AUTHORS
+from ..gen import ID, ev_tok, AUTHORS
 
 THEOREMS = ['store_crash_consistent', 'remove_crash_consistent', 'vanish_crash_subset', 'creation_crash_consistent', 'reopen_end', 'store_kill_map_states', 'creation_map_states']
 
@@ -107,12 +107,23 @@ def run():
             for ev in (v1, v2):
                 ab.store(ev)
                 ops.append({'op': 'store', 'ev': ev})
-            if not ops:
-                continue
+            iv2 = len(ops) - 1
+            # always: a vanish that has several targets - events by the key (the replaceable one just stored among them), a gift
+            # wrap naming it - so that every kill point between its per-event removals is really visited
+            wrap = g.new_event(kind=1059, pk=ID(0xe1), t=300, tags=[[b'p', rpk.hex().encode()]], content=b'wrap')
+            n1 = g.new_event(kind=1, pk=rpk, t=rng.choice([100, 300]), tags=[[b't', b'a'], [b'p', AUTHORS[0].hex().encode()]], content=b'note')
+            n2 = g.new_event(kind=rng.choice([1, 30023]), pk=rpk, t=301, tags=[[b'd', b'vz'], [b't', b'a']], content=b'note2')
+            for ev in (wrap, n1, n2):
+                ab.store(ev)
+                ops.append({'op': 'store', 'ev': ev})
+            ab.vanish(rpk)
+            ops.append({'op': 'vanish', 'pk': rpk})
             # choose the steps to interrupt
             if Q:
                 special = [i for i, o in enumerate(ops) if o['op'] in ('vanish', 'remove') or (o['op'] == 'store' and o['ev']['kind'] == 5)][:2]
-                special.append(len(ops) - 1)
+                special.append(iv2)
+                if h % 2 == 0:
+                    special.append(len(ops) - 1)
                 ks = sorted(set(special + rng.sample(range(len(ops)), min(2, len(ops)))))
             else:
                 ks = list(range(len(ops)))
@@ -270,8 +281,29 @@ def run():
                           if l.split(' ')[0] not in ('STA', 'FND', 'FRP', 'FPR'))
                 if not ok1:
                     c.violation('oracle', 'vanish killed at %s #%d: the reopened store is not between the states before and after' % (t['point'], t['n']), rep)
-                else:
-                    c.nontriv((t['h'], k, t['point'], t['n']))
+                    continue
+                # ... and the WHOLE state (every index: entry counts, queries by author / kind / tag, address lookups) is the state
+                # before the call with exactly that subset of targets removed - the uninterrupted real store, the gone ids
+                # removed one by one, is the reference; the continuation behaves as on it
+                gone = [l.split(' ')[1] for l, r, a in zip(t['bat'], R1, A[0]) if l.startswith('HAS ') and a == '1' and r == '0']
+                d3 = os.path.join(base, 'ref-%d-v' % id(t))
+                rem = ['REM ' + x for x in gone]
+                ml = ['NEW %s %s' % (d3, ','.join(t['tables']) or '-')] + pre + rem + t['bat'] + t['cont'] + t['bat'] + ['RMD']
+                mo = c.worker.run(ml)[1 + len(pre) + len(rem):]
+                C1 = [norm(l, r) for l, r in zip(t['bat'], mo[:nb])]
+                CC = [r.split(' ')[0] if l.startswith('STO') else norm(l, r) for l, r in zip(t['cont'], mo[nb:nb + nc])]
+                C2 = [norm(l, r) for l, r in zip(t['bat'], mo[nb + nc:2 * nb + nc])]
+                c.count('vanish_killed_with_%s_gone' % ('none' if not gone else 'some'))
+                if R1 != C1:
+                    diff = [(l[:40], r[:50], x[:50]) for l, r, x in zip(t['bat'], R1, C1) if r != x][:2]
+                    c.violation('oracle', 'vanish killed at %s #%d: %d of its targets are gone, but the reopened store is not the store before the call '
+                                'with those removed (half-removed events?): %s' % (t['point'], t['n'], len(gone), diff), rep)
+                    continue
+                if RC != CC or R2 != C2:
+                    c.violation('oracle', 'after a vanish killed at %s #%d the continuation does not behave as on an uninterrupted store: %s vs %s' % (
+                        t['point'], t['n'], RC, CC), rep)
+                    continue
+                c.nontriv((t['h'], k, t['point'], t['n']))
                 continue
             if same(R1, A[0]):
                 which, exp = 'before', A
